@@ -253,9 +253,34 @@ func secondOpinion(pd *propDef, c *Ctx, r *Report, start int, verif string) {
 			replaced[rule] = true
 		}
 	}
+	// a rule that fails in both views is reported from the original; when the original only lost
+	// sight of the code (too few instances) and the view sees it again and finds it wrong, the view's
+	// findings name the construct, so they are added to the report
+	for rule := range failing {
+		if replaced[rule] || bad2[rule] == 0 || cnt2[rule] < r.floors[rule] {
+			continue
+		}
+		origBad := 0
+		for _, o := range r.Obs[start:] {
+			if o.Rule == rule && (o.Status == "violation" || o.Status == "undecided") {
+				origBad++
+			}
+		}
+		if origBad > 0 {
+			continue
+		}
+		for _, o := range r2.Obs {
+			if o.Rule == rule && (o.Status == "violation" || o.Status == "undecided") {
+				o.Detail = fmt.Sprintf("(seen once %d private helper calls are expanded in place) %s", n, o.Detail)
+				o.Pos = "~" + o.Pos
+				r.Obs = append(r.Obs, o)
+			}
+		}
+	}
 	if len(replaced) == 0 {
 		return
 	}
+	kept = append([]Ob{}, r.Obs[:start]...)
 	for _, o := range r.Obs[start:] {
 		if !replaced[o.Rule] {
 			kept = append(kept, o)
